@@ -4,15 +4,16 @@ import common
 SPEC = dict(modules=["MemVerif.Props.C11", "MemVerif.Props.C02"], gen_cfgs=("rwdi",),
             assumptions=["upstream nodes are 16-aligned (checked by the harness), so member offsets do not depend on the block address for element "
                          "alignments <= 16",
-                         "containers with joint_allocator inside a joint object use the same allocate/deallocate path as joint_array's sized form; "
-                         "they are covered by the model's JOp histories (theorems) but not instantiated by the harness yet",
+                         "containers with joint_allocator inside a joint object use joint_allocator::allocate_node/deallocate_node: covered by the "
+                         "model's JOp histories (theorems) and by `jh` histories on the real joint_allocator (releases in any order, vector-like "
+                         "regrowth: new buffer first, old buffer released afterwards)",
                          "clone_joint produces an independent object: the clone's block is a fresh upstream block (disjointness of upstream "
                          "blocks is the environment assumption EnvOk)"])
 
 
 def run(ctx):
     total = common.run_sweep(ctx, "C11", "subj_smart", ["rwdi", "dbg"] + (["rel"] if ctx.thorough else []),
-                             ["1" if ctx.thorough else "0", ctx.seed], ["jt "], subject="joint")
+                             ["1" if ctx.thorough else "0", ctx.seed], ["jt ", "jh "], subject="joint")
     ctx.coverage["rule"] = ("joint objects with three joint_array members: 10 member layouts x element types (size,align) (1,1) (8,8) (24,8) (16,16) "
                             "[+3 thorough] x sized and iterator-range construction x additional sizes: generous, exact fit, one byte short, one "
                             "element short, zero, seeded; observed on the real code: offset of every member array in the block, stack top, "
@@ -20,4 +21,6 @@ def run(ctx):
                             "compared with the Lean model; independent oracle: arrays aligned, inside the joint memory, in order without overlap, "
                             "object at the start of its one upstream block, reset() = exactly one release of sizeof(T)+additional_size with "
                             "alignof(T), clone lives in its own block of sizeof(T)+capacity_used and is released with that size, swap/move of "
-                            "joint_ptrs keep each block with its size")
+                            "joint_ptrs keep each block with its size; `jh`: seeded histories of joint_allocator::allocate_node / deallocate_node "
+                            "(any release order, regrowth pattern) - every returned offset and the final top compared with the model, and on the "
+                            "real code: inside the joint memory, aligned, no overlap with nodes the user still holds, their bytes untouched")
